@@ -22,6 +22,10 @@ def sh(cmd, cwd=None, timeout=1800, env=None):
     return r.returncode, r.stdout
 
 
+def suite_cmd():
+    return "go test -mod=mod -vet=off -count=1 -timeout 25m ./... 2>&1"
+
+
 def copy_repo(dst):
     shutil.rmtree(dst, ignore_errors=True)
     os.makedirs(dst)
@@ -51,11 +55,10 @@ def main():
             res["error"] = out[-800:]
             return finish(d, res)
         if "--skip-suite" not in sys.argv:
-            rc, out = sh("go test -mod=mod -vet=off -count=1 -timeout 25m ./... 2>&1 | grep -v '^ok\\|no test files' | tail -20", cwd=m)
-            rc2, out2 = sh("go test -mod=mod -vet=off -count=1 -timeout 25m ./... > /dev/null 2>&1", cwd=m)
+            rc2, out = sh(suite_cmd(), cwd=m)
             res["suite_passes_with_patch"] = rc2 == 0
             if rc2 != 0:
-                res["suite_output"] = out[-1500:]
+                res["suite_output"] = "\n".join(l for l in out.splitlines() if not l.startswith("ok") and "no test files" not in l)[-1500:]
         # demonstration
         demo = os.path.join(d, "demo_test.go")
         loc = meta.get("demo_location", ".").strip("/") or "."
